@@ -1046,7 +1046,7 @@ Section Phase2.
       cbn [enc_text]. unfold link_ref. rewrite Em.
       change (EAttr (join_sp (s0 :: sr))) with (encode_refs (s0 :: sr)).
       rewrite (refs_roundtrip (fun _ => true) (s0 :: sr) HL), HT. cbn [andb].
-      destruct (f_unique d); [|reflexivity]. rewrite Em in W1. cbn [andb negb orb] in W1. rewrite (dedup_nodup l W1). reflexivity.
+      destruct (f_unique d); [|reflexivity]. cbn [andb negb orb] in W1. rewrite (dedup_nodup l W1). reflexivity.
     - cbn [orb] in W. apply Nat.leb_le in W.
       destruct ps as [|p [|p' r]]; [destruct (o_sd o); reflexivity| |cbn in W; lia].
       cbn [enc_text]. unfold link_ref. rewrite Em.
@@ -1081,10 +1081,6 @@ Section Phase2.
 End Phase2.
 
 (* ================================================================ 5. whole documents *)
-Lemma root_elems_enc mm o S F :
-  root_elems (encode_doc mm o F) = map (enc_root mm o (map skel F)) F \/ True.
-Proof. right. exact I. Qed.
-
 Lemma enc_root_tag mm o S t : x_tag (enc_root mm o S t) = TRoot (t_cls t).
 Proof. unfold enc_root. exact (proj1 (enc_tree_shape mm o S _ _ t)). Qed.
 
@@ -1109,3 +1105,43 @@ Proof.
   - apply Forall_forall. intros t Ht. unfold dec_root. rewrite enc_root_tag.
     unfold enc_root. exact (phase1 mm o S Hmm t (HF t Ht) _ _).
 Qed.
+
+(* an observation (no `_isset`) is what the document of the all-assigned state loads as *)
+Lemma forget_set_all {R} ids (t : tree R) : forget (set_all ids t) = forget t.
+Proof.
+  induction t as [c iss a r ks IH] using tree_ind'. cbn [set_all forget]. f_equal.
+  rewrite map_map. apply map_ext_Forall. eapply Forall_impl'; [|exact IH].
+  intros p Hp. cbn [fst snd]. rewrite Hp. reflexivity.
+Qed.
+
+Theorem document_round_trip_literal mm o (G : list (tree (list path))) :
+  wf_mm mm = true -> map forget G = G -> wf_forest mm (map (set_all (all_ids mm)) G) = true ->
+  decode_doc mm (encode_doc mm o (map (set_all (all_ids mm)) G)) = Some G.
+Proof.
+  intros Hmm HG Hwf. rewrite (document_round_trip mm o _ Hmm Hwf), map_map.
+  rewrite (map_ext _ _ (forget_set_all (all_ids mm))). rewrite HG. reflexivity.
+Qed.
+
+(* why the premise speaks about `_isset`: a value that differs from the default in a feature that is
+   not in `_isset` (no state of pyecore) would not be written *)
+Definition ex_a_names := mkFeat 0 true false 0 None.
+Definition ex_a_label := mkFeat 1 false true 0 (Some [100]).
+Definition ex_r_uses := mkFeat 2 true true 1 None.
+Definition ex_c_parts := mkFeat 3 true true 1 None.
+Definition ex_a_note := mkFeat 4 false true 0 None.
+Definition ex_r_owner := mkFeat 5 false true 0 None.
+(* A (names*, label = 'd', uses* -> B, parts* <>- B) ; B (note, owner -> A) ; C extends B *)
+Definition ex_mm : mmodel :=
+  [ mkClass 0 false [] [ex_a_names; ex_a_label] [ex_r_uses] [ex_c_parts];
+    mkClass 1 false [] [ex_a_note] [ex_r_owner] [];
+    mkClass 2 false [1] [ex_a_note] [ex_r_owner] [] ].
+(* two roots; names = ['a b', 'c'] (white space: element form); the second part is a C under a
+   containment declared as B (xsi:type); uses = [the C, the B] (cross references, order kept);
+   the C's owner is the second root; its note is '' *)
+Definition ex_forest : list (tree (list path)) :=
+  [ Node 0 [0; 2; 3]
+         [(0, [Some [97; 32; 98]; Some [99]]); (1, [Some [100]])]
+         [(2, [(0%nat, [(3, 1%nat)]); (0%nat, [(3, 0%nat)])])]
+         [(3, Node 1 [] [(4, [None])] [(5, [])] []);
+          (3, Node 2 [4; 5] [(4, [Some []])] [(5, [(1%nat, [])])] [])];
+    Node 0 [1] [(0, []); (1, [Some [120]])] [(2, [])] [] ].
